@@ -915,6 +915,23 @@ func mutateWorld(rg *rand.Rand, a *WorldDef) *WorldDef {
 	for n := rg.Intn(3); n > 0 && len(b.PS) < 4 && !dropAll; n-- {
 		b.PS = append(b.PS, genPolicyLike(rg, a, pick(rg, a.C.NSs).Name, fmt.Sprintf("new%d", len(b.PS))))
 	}
+	// a pod that had an address (and possibly chains) is seen again WITHOUT one - a re-created replica that has not
+	// been given its address yet - and no policy of the new world selects it: its old chains must go all the same
+	for i := range b.C.Pods {
+		q := &b.C.Pods[i]
+		if !q.HasIP || q.Node != LocalNode || rg.Intn(100) >= 20 {
+			continue
+		}
+		selected := false
+		for j := range b.PS {
+			if b.PS[j].Selects(q) {
+				selected = true
+			}
+		}
+		if !selected {
+			q.HasIP, q.IP = false, 0
+		}
+	}
 	return b
 }
 
